@@ -10,6 +10,7 @@ let () =
    | [ _; "absent"; file ] -> Drv_absent.absent file
    | [ _; "abspar"; file; child ] -> Drv_abspar.abspar file child
    | [ _; "absprom"; file ] -> Drv_absprom.absprom file
+   | [ _; "absast"; file; kind; id ] -> Drv_absast.absast file kind id
    | [ _; "codec-mesh"; file ] -> Drv_codec.codec_mesh file
    | [ _; "codec-image"; file ] -> Drv_codec.codec_image file
    | [ _; "codec-msg"; file ] -> Drv_codec.codec_msg file
